@@ -132,6 +132,7 @@ func init() {
 		"Whether emitted files parse and type-check in their languages needs the five toolchains and is NOT decided.", func(w *World, r *Report) {
 		wc := buildWire(w, r)
 		c07EveryKind(wc, r)
+		memberNamedByField(w, wc, r, "C07")
 		wireTables(w, r, "C07")
 		wireLEColumn(wc, r, "C07", "enc")
 		wireLEColumn(wc, r, "C07", "dec")
@@ -171,98 +172,100 @@ func c07Packets(w *World, wc *wireCtx, r *Report) {
 		r.fatal("%v", err)
 		return
 	}
+	// reachesEmitter: the call enters (through static calls, closures and function values; depth 5) a generator function with an
+	// encode / decode role
+	var reachesEmitter func(f *ssa.Function, seen map[*ssa.Function]bool, depth int) bool
+	reachesEmitter = func(f *ssa.Function, seen map[*ssa.Function]bool, depth int) bool {
+		if f == nil || seen[f] || depth > 5 || !w.isSubjectFunc(f) {
+			return false
+		}
+		seen[f] = true
+		if ro := roleOf(f); ro == "enc" || ro == "dec" {
+			return true
+		}
+		hit := false
+		forEachInstr(f, func(_ *ssa.BasicBlock, ins ssa.Instruction) {
+			if c, ok := ins.(ssa.CallInstruction); ok && !hit {
+				for _, g := range calleesOfAll(c) {
+					if reachesEmitter(g, seen, depth+1) {
+						hit = true
+					}
+				}
+			}
+		})
+		return hit
+	}
 	for _, g := range generators {
 		gen := gens[g.Lang]
 		reach := w.subjectsOnly(w.reachable([]*ssa.Function{gen}, func(f *ssa.Function) bool { return w.isRepoLike(f) }))
 		found := false
 		bad := ""
 		for _, fn := range sortedFuncs(reach) {
-			if recvNamedCore(fn) != g.Type {
+			if fn.Pkg != w.Parser {
 				continue
 			}
-			for _, b := range fn.Blocks {
-				for _, ins := range b.Instrs {
-					var rangedField string
-					var loopBlocks map[*ssa.BasicBlock]bool
-					var header *ssa.BasicBlock
-					switch x := ins.(type) {
-					case *ssa.Range:
-						if ld, ok := x.X.(*ssa.UnOp); ok {
-							if fa, ok := ld.X.(*ssa.FieldAddr); ok {
-								if tn, f, _, _ := fieldOf(fa); tn == "BinaryModel" && f == "PacketsMap" {
-									rangedField = f
-									for _, ref := range *x.Referrers() {
-										if nx, ok := ref.(*ssa.Next); ok {
-											header = nx.Block()
-											loopBlocks = naturalLoop(header)
-										}
-									}
-								}
-							}
+			if rn := recvNamedCore(fn); rn != "" && rn != g.Type {
+				continue
+			}
+			for _, loopBlocks := range packetLoops(fn) {
+				// the blocks of the loop from which an emitter is reached
+				var emitBlocks []*ssa.BasicBlock
+				for lb := range loopBlocks {
+					for _, i2 := range lb.Instrs {
+						c, ok := i2.(ssa.CallInstruction)
+						if !ok {
+							continue
 						}
-					case *ssa.IndexAddr:
-						if ld, ok := x.X.(*ssa.UnOp); ok {
-							if fa, ok := ld.X.(*ssa.FieldAddr); ok {
-								if tn, f, _, _ := fieldOf(fa); tn == "BinaryModel" && f == "Packets" {
-									if bo, ok := x.Index.(*ssa.BinOp); ok {
-										if phi, ok := bo.X.(*ssa.Phi); ok && phi.Comment == "rangeindex" {
-											rangedField = f
-											header = phi.Block()
-											loopBlocks = naturalLoop(header)
-										}
-									}
-								}
+						for _, callee := range calleesOfAll(c) {
+							if reachesEmitter(callee, map[*ssa.Function]bool{}, 0) {
+								emitBlocks = append(emitBlocks, lb)
 							}
 						}
 					}
-					if rangedField == "" || loopBlocks == nil {
+				}
+				if len(emitBlocks) == 0 {
+					continue
+				}
+				found = true
+				// skips: a way round the emitting call, inside one iteration, may only depend on IsRoot (the root is emitted separately)
+				var header *ssa.BasicBlock
+				for lb := range loopBlocks {
+					isHeader := true
+					for ob := range loopBlocks {
+						if !lb.Dominates(ob) {
+							isHeader = false
+						}
+					}
+					if isHeader {
+						header = lb
+					}
+				}
+				if header == nil {
+					continue
+				}
+				for _, p := range header.Preds {
+					if !loopBlocks[p] || !header.Dominates(p) {
 						continue
 					}
-					// the loop must call a per-packet emitter (a method of the generator taking *model.Packet) with the loop element
-					var emitBlocks []*ssa.BasicBlock
+					dom := false
+					for _, eb := range emitBlocks {
+						if eb.Dominates(p) {
+							dom = true
+						}
+					}
+					if dom {
+						continue
+					}
 					for lb := range loopBlocks {
-						for _, i2 := range lb.Instrs {
-							if c, ok := i2.(ssa.CallInstruction); ok {
-								if f := c.Common().StaticCallee(); f != nil && recvNamedCore(f) == g.Type {
-									for _, a := range c.Common().Args {
-										if typeIs(a.Type(), modPath+"/internal/model", "Packet") {
-											emitBlocks = append(emitBlocks, lb)
-										}
-									}
+						if cond := branchCond(lb); cond != nil && !mentionsField(cond, "IsRoot", 0) && lb != header {
+							isEmitPath := false
+							for _, eb := range emitBlocks {
+								if lb.Dominates(eb) || eb.Dominates(lb) {
+									isEmitPath = true
 								}
 							}
-						}
-					}
-					if len(emitBlocks) == 0 {
-						continue
-					}
-					found = true
-					// skips: a back edge not dominated by an emitting block must be guarded by an IsRoot test only
-					for _, p := range header.Preds {
-						if !loopBlocks[p] || !header.Dominates(p) {
-							continue
-						}
-						dom := false
-						for _, eb := range emitBlocks {
-							if eb.Dominates(p) {
-								dom = true
-							}
-						}
-						if dom {
-							continue
-						}
-						// which conditions can lead here without emitting? they must be IsRoot tests
-						for lb := range loopBlocks {
-							if cond := branchCond(lb); cond != nil && !mentionsField(cond, "IsRoot", 0) && lb != header {
-								isEmitPath := false
-								for _, eb := range emitBlocks {
-									if lb.Dominates(eb) || eb.Dominates(lb) {
-										isEmitPath = true
-									}
-								}
-								if !isEmitPath {
-									bad = fmt.Sprintf("%s skips packets under a condition other than IsRoot", fnKey(fn))
-								}
+							if !isEmitPath {
+								bad = fmt.Sprintf("%s skips packets under a condition other than IsRoot", fnKey(fn))
 							}
 						}
 					}
@@ -272,7 +275,7 @@ func c07Packets(w *World, wc *wireCtx, r *Report) {
 		key := g.Lang + ": code is emitted for every packet"
 		switch {
 		case !found:
-			r.fail(rule, key, w.pos(gen.Pos()), "no range over BinaryModel.Packets / PacketsMap that calls a per-packet emitter found under "+g.Type+".Generate")
+			r.fail(rule, key, w.pos(gen.Pos()), "no loop over the declared packets (BinaryModel.Packets / PacketsMap or a list made from them) that reaches an encode / decode emitter found under "+g.Type+".Generate")
 		case bad != "":
 			r.fail(rule, key, w.pos(gen.Pos()), bad)
 		default:
@@ -302,6 +305,25 @@ func c07Packets(w *World, wc *wireCtx, r *Report) {
 					return
 				}
 				for _, ref := range *ld.Referrers() {
+					// queued: stored into the element slot of an append(list, ...)
+					if st, ok := ref.(*ssa.Store); ok && st.Val == ssa.Value(ld) {
+						if ia, ok := st.Addr.(*ssa.IndexAddr); ok {
+							if al, ok := ia.X.(*ssa.Alloc); ok && al.Referrers() != nil {
+								for _, r2 := range *al.Referrers() {
+									if sl, ok := r2.(*ssa.Slice); ok && sl.Referrers() != nil {
+										for _, r3 := range *sl.Referrers() {
+											if c3, ok := r3.(*ssa.Call); ok {
+												if bi, ok := c3.Call.Value.(*ssa.Builtin); ok && bi.Name() == "append" {
+													handled = true
+													pos = w.instrPos(ins)
+												}
+											}
+										}
+									}
+								}
+							}
+						}
+					}
 					c, ok := ref.(ssa.CallInstruction)
 					if !ok {
 						continue
@@ -461,6 +483,49 @@ func packetLoops(fn *ssa.Function) []map[*ssa.BasicBlock]bool {
 	return out
 }
 
+// basePacketLoops: the loops of fn directly over BinaryModel.Packets / BinaryModel.PacketsMap.
+func basePacketLoops(fn *ssa.Function) []map[*ssa.BasicBlock]bool {
+	var out []map[*ssa.BasicBlock]bool
+	isModelList := func(v ssa.Value, field string) bool {
+		ld, ok := stripIdentity(v).(*ssa.UnOp)
+		if !ok {
+			return false
+		}
+		fa, ok := ld.X.(*ssa.FieldAddr)
+		if !ok {
+			return false
+		}
+		tn, f, _, _ := fieldOf(fa)
+		return tn == "BinaryModel" && f == field
+	}
+	forEachInstr(fn, func(b *ssa.BasicBlock, ins ssa.Instruction) {
+		switch x := ins.(type) {
+		case *ssa.Range:
+			if isModelList(x.X, "PacketsMap") && x.Referrers() != nil {
+				for _, ref := range *x.Referrers() {
+					if nx, ok := ref.(*ssa.Next); ok {
+						out = append(out, naturalLoop(nx.Block()))
+					}
+				}
+			}
+		case *ssa.IndexAddr:
+			if isModelList(x.X, "Packets") {
+				var phi *ssa.Phi
+				switch ix := x.Index.(type) {
+				case *ssa.BinOp:
+					phi, _ = ix.X.(*ssa.Phi)
+				case *ssa.Phi:
+					phi = ix
+				}
+				if phi != nil {
+					out = append(out, naturalLoop(phi.Block()))
+				}
+			}
+		}
+	})
+	return out
+}
+
 func packetLoopsOf(fn *ssa.Function) []map[*ssa.BasicBlock]bool {
 	var out []map[*ssa.BasicBlock]bool
 	forEachInstr(fn, func(b *ssa.BasicBlock, ins ssa.Instruction) {
@@ -479,10 +544,16 @@ func packetLoopsOf(fn *ssa.Function) []map[*ssa.BasicBlock]bool {
 			}
 		case *ssa.IndexAddr:
 			if listOfDeclaredPackets(x.X, 0, map[ssa.Value]bool{}) {
-				if bo, ok := x.Index.(*ssa.BinOp); ok {
-					if phi, ok := bo.X.(*ssa.Phi); ok && phi.Comment == "rangeindex" {
-						out = append(out, naturalLoop(phi.Block()))
-					}
+				// the index is a loop counter: the range form (counter + 1) or a hand-written `for i := 0; i < len(list); i++`
+				var phi *ssa.Phi
+				switch ix := x.Index.(type) {
+				case *ssa.BinOp:
+					phi, _ = ix.X.(*ssa.Phi)
+				case *ssa.Phi:
+					phi = ix
+				}
+				if phi != nil && len(naturalLoop(phi.Block())) > 1 {
+					out = append(out, naturalLoop(phi.Block()))
 				}
 			}
 		}
@@ -513,6 +584,37 @@ func listOfDeclaredPackets(v ssa.Value, depth int, seen map[ssa.Value]bool) bool
 		}
 	case *ssa.Slice:
 		return listOfDeclaredPackets(x.X, depth+1, seen)
+	case *ssa.Parameter:
+		// a list handed in: every call site in the generators passes a list of the declared packets
+		fn := x.Parent()
+		if theWorld == nil {
+			return false
+		}
+		sl, ok := x.Type().Underlying().(*types.Slice)
+		if !ok || modelTypeName(sl.Elem()) != "Packet" {
+			return false
+		}
+		sites := 0
+		for i, p := range fn.Params {
+			if p != x {
+				continue
+			}
+			for _, g := range theWorld.srcFuncs {
+				bad := false
+				forEachInstr(g, func(_ *ssa.BasicBlock, ins ssa.Instruction) {
+					if c, ok := ins.(ssa.CallInstruction); ok && c.Common().StaticCallee() == fn && i < len(c.Common().Args) {
+						sites++
+						if !listOfDeclaredPackets(c.Common().Args[i], depth+1, seen) {
+							bad = true
+						}
+					}
+				})
+				if bad {
+					return false
+				}
+			}
+		}
+		return sites > 0
 	case *ssa.Phi:
 		for _, e := range x.Edges {
 			if listOfDeclaredPackets(e, depth+1, seen) {
@@ -521,7 +623,12 @@ func listOfDeclaredPackets(v ssa.Value, depth int, seen map[ssa.Value]bool) bool
 		}
 	case *ssa.Call:
 		if bi, ok := x.Call.Value.(*ssa.Builtin); ok && bi.Name() == "append" && len(x.Call.Args) > 0 {
-			// accumulated inside a loop over the declared packets
+			// accumulated inside a loop over the declared packets (the model's own list or map first: no recursion needed)
+			for _, lp := range basePacketLoops(x.Parent()) {
+				if lp[x.Block()] {
+					return true
+				}
+			}
 			for _, lp := range packetLoops(x.Parent()) {
 				if lp[x.Block()] {
 					return true
@@ -569,13 +676,14 @@ func packetLoopReaches(w *World, wc *wireCtx, r *Report, rule, role, what, failu
 						if !ok {
 							return
 						}
-						g := c.Common().StaticCallee()
-						if g == nil || !w.isSubjectFunc(g) || seen[g] {
-							return
-						}
-						seen[g] = true
-						if roleOf(g) == role || reach(g, nil, depth+1) {
-							hit = true
+						for _, g := range calleesOfAll(c) {
+							if g == nil || !w.isSubjectFunc(g) || seen[g] {
+								continue
+							}
+							seen[g] = true
+							if roleOf(g) == role || reach(g, nil, depth+1) {
+								hit = true
+							}
 						}
 					})
 					return hit
